@@ -58,7 +58,7 @@ func (Prop) Describe() core.Description {
 // non-zero when y is): a lock-free implementation (crypto/rand, say) is legitimate and must
 // not trip the dead-probe guard.
 func quickProbes() []string {
-	return []string{"lock_contended if lock_acquired", "waiters_ge_2 if lock_acquired", "ids_ge_128_uniform", "long_lived_run"}
+	return []string{"lock_contended if lock_acquired", "waiters_ge_2 if lock_acquired", "ids_ge_128_uniform", "long_lived_run", "crowd_run"}
 }
 
 func thoroughProbes() []string {
@@ -118,6 +118,13 @@ func (Prop) Run(t *core.Tape, o core.RunOpts) *core.Result {
 			strategy = sched.SSticky90
 		}
 		res.Probes.Inc("long_lived_run")
+	}
+	// a rare "crowd": more callers at once than the 64 the property's quantifier names (queues,
+	// semaphores and tables sized for "more than enough" callers overflow here)
+	if t.Bool(1, 300) {
+		n = 130 + t.Choose(63)
+		calls = 1 + t.Choose(2)
+		res.Probes.Inc("crowd_run")
 	}
 	// and a very rare "marathon": one or two callers, more than 2^17 IDs (2^20 in the thorough
 	// tier, once in a while): thresholds that are round numbers of calls
